@@ -4,6 +4,7 @@ import (
 	"context"
 	"errors"
 	"sync"
+	"sync/atomic"
 	"time"
 )
 
@@ -120,6 +121,8 @@ func (p *pool) Store(v wire) {
 		p.startTimerIfNeeded()
 		v.ResetTimer()
 		vhook("pool.store.keep", p, 0, 0)
+	} else if dp, ok := v.(*pipe); ok && wire(dp) != p.dead && atomic.LoadInt32(&dp.state) == 3 {
+		// a placeholder Acquire made for a done context never took a slot, so it must not release one
 	} else {
 		p.size--
 		v.Close()
